@@ -75,17 +75,68 @@ def run(ctx):
         g = good[i]
         violations.append({'signature': 'chunks:%s:%s' % (bytes(g['b'])[:24].hex(), ','.join(map(str, g['_ch'][:6]))), 'stream': bytes(g['b']).hex(),
                            'chunks': g['_ch'], 'steps': g['steps'], 'what': 'loader output after some feed differs from Frame(prefix)'})
+    # the same through the transport: a real connection on a real socket, libdbus as server (first chunk glued to BEGIN) and
+    # as client
+    import subprocess
+    import os
+    import json
+    tcases = []
+    for s in streams(rng, 40 if ctx.quick else 1200):
+        n = len(s)
+        cuts = [[n], [n // 2, n - n // 2] if n > 1 else [n]]
+        for _ in range(3):
+            left, ch = n, []
+            while left > 0 and len(ch) < 12:
+                k = min(left, rng.choice([1, 2, 7, 8, 15, 16, 17, 33, 100, 300]))
+                ch.append(k)
+                left -= k
+            if left:
+                ch.append(left)
+            cuts.append(ch)
+        for ch in cuts:
+            tcases.append((rng.choice('sc'), s, ch))
+    env = dict(os.environ, ASAN_OPTIONS='detect_leaks=0:abort_on_error=0', DBUS_FATAL_WARNINGS='0')
+
+    def run_part(part):
+        inp = ''.join('%s %s %s\n' % (m, b.hex() or '-', ','.join(map(str, ch)) or '0') for m, b, ch in part)
+        try:
+            p = subprocess.run([vlib.harness_path(ctx.build, 'connraw')], input=inp, stdout=subprocess.PIPE, stderr=subprocess.PIPE, env=env,
+                               text=True, timeout=600)
+            return [json.loads(x) for x in p.stdout.splitlines() if x.startswith('{')], p.returncode, p.stderr
+        except subprocess.TimeoutExpired:
+            return [], -99, 'timeout'
+    from concurrent.futures import ThreadPoolExecutor
+    parts = [tcases[i:i + 25] for i in range(0, len(tcases), 25)]
+    with ThreadPoolExecutor(max_workers=10) as ex:
+        pres = list(ex.map(run_part, parts))
+    trecs, tmeta = [], []
+    for part, (outs, rc, err) in zip(parts, pres):
+        for (m, b, ch), o in zip(part, outs):
+            trecs.append({'k': 'tchunk', 'b': list(b), 'disc': o['disc'],
+                          'out': [[x & 255, (x >> 8) & 255, (x >> 16) & 255, (x >> 24) & 255] for x in o['out']]})
+            tmeta.append((m, b, ch, o))
+        if len(outs) < len(part):
+            m, b, ch = part[len(outs)]
+            violations.append({'signature': 'crash:connraw:rc=%s' % rc, 'mode': m, 'stream': b.hex(), 'chunks': ch, 'stderr': err[-2000:],
+                               'what': 'the connection harness died or hung on this stream'})
+    tbad = vlib.check_cases(trecs, shard=100, devnames=('LenientUniqueName',))
+    for i in tbad:
+        m, b, ch, o = tmeta[i]
+        violations.append({'signature': 'tchunks:%s:%s:%s' % (m, b[:24].hex(), ','.join(map(str, ch[:6]))), 'mode': m, 'stream': b.hex(), 'chunks': ch,
+                           'delivered': o, 'what': 'what a real connection dispatched (or whether it gave up) differs from Frame(stream)'})
     mc = vlib.model_check('Loader.tla', 'Loader.cfg', timeout=300, workers=4)
     if not mc['ok']:
         violations.append({'signature': 'model:' + mc['violated'], 'what': 'Loader.tla violates ' + mc['violated']})
-    cov = {'states': mc['states'], 'transitions': mc['transitions'], 'traces_validated_against_impl': len(good) - len(bad),
+    cov = {'states': mc['states'], 'transitions': mc['transitions'], 'traces_validated_against_impl': len(good) - len(bad) + len(trecs) - len(tbad),
+           'transport_level_cases': len(trecs),
            'samples': [{'stream': bytes(g['b']).hex(), 'chunks': g['_ch'], 'steps': g['steps']} for g in good[:2]],
-           'evaluations': len(good), 'distinct_nontrivial': len({(bytes(g['b']), tuple(g['_ch'])) for g in good}), 'rule': RULE, 'exhaustive': False,
+           'evaluations': len(good) + len(trecs), 'distinct_nontrivial': len({(bytes(g['b']), tuple(g['_ch'])) for g in good}) + len({(m, b, tuple(ch)) for m, b, ch, _o in tmeta}),
+           'rule': RULE + ' || the same streams through a real DBusConnection on a socket (libdbus as server with the first chunk written together with the BEGIN line, and as client), unsplit, halved and in random chunkings of up to 13 pieces: dispatched serials and self-disconnection must equal Frame(stream)', 'exhaustive': False,
            'explanation': 'Loader.tla: TLC explores all chunkings of abstract streams (PrefixDetermined, NoOutputAfterCorruption); '
                           'implementation: real loader fed in chunks, each step compared with Wire.Frame of the prefix'}
     return {'level': 'model_checking', 'coverage': cov, 'violations': violations,
             'assumptions': ['TLC and the CommunityModules JSON reader are correct', 'wirecase.c feeds the loader exactly as instructed',
-                            'the transport layer above the loader (socket reads) is exercised by the bus checks, not here']}
+                            'connraw.c writes the chunks as instructed and lets the connection run 2 ms between chunks (chunks may still coalesce in one read, which the property allows)']}
 
 
 def replay(ctx, path):
